@@ -204,8 +204,53 @@ def check_zero(ctx: Ctx, dtype):
     ctx.case(("zero", m, n, str(dtype)), nontrivial=False)
 
 
+def check_wide(ctx: Ctx):
+    """the defining conditions do not depend on the number of columns: few objectives over thousands of parameters
+    (float64 Gaussian rows of very different norms), conditions evaluated on the implementation's output"""
+    rng = ctx.rng
+    m = rng.choice([2, 3, 4])
+    n = rng.choice([1024, 1500, 2048, 4100])
+    g = torch.Generator().manual_seed(rng.randrange(2 ** 31))
+    J = torch.randn(m, n, generator=g, dtype=torch.float64)
+    J = J * torch.tensor([10.0 ** rng.uniform(-2, 2) for _ in range(m)], dtype=torch.float64)[:, None]
+    norms = J.norm(dim=1)
+    U = J / norms[:, None]
+    pref = rng.choice([None, [float(rng.randint(1, 6)) for _ in range(m)]])
+    w = torch.ones(m, dtype=torch.float64) if pref is None else torch.tensor(pref, dtype=torch.float64)
+    rp = {"family": "wide", "shape": [m, n], "row_norms": norms.tolist(), "pref": pref, "generator_seed": "see replay seed"}
+    ctx.case(("wide", m, n, str(pref), float(norms[0])), nontrivial=True)
+    # ConFIG: cosines proportional to the preference, length = sum of the projections of the rows
+    st, x = run_agg(ConFIG(pref_vector=None if pref is None else torch.tensor(pref, dtype=torch.float64)), J)
+    ctx.count("wide", "ConFIG")
+    if st != "ok":
+        ctx.violation(f"ConFIG raised {x} on a {m}x{n} matrix", {**rp, "aggregator": "ConFIG"})
+        return
+    cw = (U @ x) / w
+    length = float(x.norm())
+    proj = float((J @ x).sum() / max(length, 1e-300))
+    if float(cw.max() - cw.min()) > 1e-7 * float(cw.abs().max()) or float(cw.min()) <= 0 or abs(length - proj) > 1e-7 * length:
+        ctx.violation(f"ConFIG on a {m}x{n} matrix with row norms {[f'{v:.3g}' for v in norms.tolist()]}: cosines/preference = "
+                      f"{[f'{v:.6g}' for v in cw.tolist()]} (must be equal and positive); |A(J)| = {length:.6g}, sum of the "
+                      f"projections of the rows = {proj:.6g}", {**rp, "aggregator": "ConFIG"})
+        return
+    # IMTL-G: weights sum to one, equal projections onto the unit rows
+    A = IMTLG()
+    st, x = run_agg(A, J)
+    ctx.count("wide", "IMTLG")
+    if st != "ok":
+        ctx.violation(f"IMTLG raised {x} on a {m}x{n} matrix", {**rp, "aggregator": "IMTLG"})
+        return
+    pr = U @ x
+    ws = float(A.weighting(J).sum())
+    if float(pr.max() - pr.min()) > 1e-7 * float(pr.abs().max()) or abs(ws - 1) > 1e-9:
+        ctx.violation(f"IMTLG on a {m}x{n} matrix: projections onto the unit rows {[f'{v:.6g}' for v in pr.tolist()]} (must be "
+                      f"equal), weights sum to {ws}", {**rp, "aggregator": "IMTLG"})
+
+
 def main(ctx: Ctx):
     ctx.lean_gate()
+    for _ in range(8 if ctx.tier == "quick" else 400):
+        check_wide(ctx)
     n = 250 if ctx.tier == "quick" else 40000
     for i in range(n):
         dtype = torch.float64 if i % 3 else torch.float32
@@ -219,6 +264,7 @@ def main(ctx: Ctx):
              "matrices (rational spectrum, full row rank) for Aligned-MTL, m <= n <= m+3, scales 1e-3..1e3, positive "
              "preference vectors incl. one-hot; implementation vs exact rational model (tolerance C·u·cond) + the "
              "defining conditions evaluated on the implementation's output (weights sum to one and equal projections; "
-             "cosines proportional to the preference; re-balanced rows orthonormal up to sigma_min); zero matrices",
+             "cosines proportional to the preference; re-balanced rows orthonormal up to sigma_min); zero matrices; wide "
+             "float64 matrices (2-4 rows of very different norms over 1024-4100 columns) with the conditions evaluated on the output",
         trusted=TRUSTED + ["kernels: torch.linalg.pinv / eigh (certificate-checked in the model: G v = d, V^T V = I and "
                            "M = V Sigma² V^T); row norms / singular values are exact by construction of the inputs"])
